@@ -394,6 +394,7 @@ func (c *Ctx) ROnly(rule string, pkg string, region []string, exemptFields map[s
 	}
 	reach := c.P.Reachable(roots)
 	writers := map[string][]string{}
+	guardedW := map[string]bool{}
 	for _, f := range c.P.Funcs {
 		for _, b := range f.Blocks {
 			for _, in := range b.Instrs {
@@ -423,6 +424,13 @@ func (c *Ctx) ROnly(rule string, pkg string, region []string, exemptFields map[s
 					continue // building a new value
 				}
 				if reach.Set[f] {
+					if held := lockedFields(f, in); len(held) > 0 {
+						guardedW[k] = true // written under a mutex: R3's business, but the field is mutable during the walk
+						if writers[k] == nil {
+							writers[k] = []string{}
+						}
+						continue
+					}
 					writers[k] = append(writers[k], c.P.FuncID(f)+" ("+c.P.InstrPos(in)+")")
 				} else if writers[k] == nil {
 					writers[k] = []string{}
@@ -435,8 +443,19 @@ func (c *Ctx) ROnly(rule string, pkg string, region []string, exemptFields map[s
 		ks = append(ks, k)
 	}
 	sort.Strings(ks)
+	c.mutableDuringWalk = map[string]bool{}
+	for k := range exemptFields {
+		c.mutableDuringWalk[k] = true
+	}
+	for k := range guardedW {
+		c.mutableDuringWalk[k] = true
+	}
 	for _, k := range ks {
 		w := writers[k]
+		if guardedW[k] && len(w) == 0 {
+			out = append(out, ok(rule, pkg+"."+k+" :: written in the concurrent phase only under the mutex", "", "every write reachable from "+strings.Join(region, ", ")+" holds the struct's mutex (lock discipline is R3's obligation)"))
+			continue
+		}
 		out = append(out, verdict(len(w) == 0, rule, pkg+"."+k+" :: not written in the concurrent phase", "",
 			"written only by functions that are not reachable from "+strings.Join(region, ", "),
 			"written by "+strings.Join(w, ", ")+" which runs concurrently with the visitors"))
@@ -448,3 +467,38 @@ func (c *Ctx) ROnly(rule string, pkg string, region []string, exemptFields map[s
 }
 
 var _ = report.Info
+
+// TRVSkip (TRV-11): whether a vertex is skipped must not depend on the schedule:
+// the function that decides it reads no field that is written while the walk is
+// running (status, results, or any other mutex-guarded field). Otherwise "visited
+// once for each root and each service that depends on one" would hold only for
+// some completion orders / directions.
+func (c *Ctx) TRVSkip(rule string) []report.Obligation {
+	var out []report.Obligation
+	fs := c.graphFuncs("graph.(*traversal).skip")
+	if len(fs) == 0 {
+		return []report.Obligation{anchorViolation(rule, "graph.(*traversal).skip")}
+	}
+	if c.mutableDuringWalk == nil {
+		c.ROnly("RONLY", "graph", []string{"graph.walk"}, map[string]bool{"traversal.status": true, "traversal.results": true})
+	}
+	skip := fs[0]
+	reach := c.P.Reachable([]*ssa.Function{skip})
+	var bad2 []string
+	for f := range reach.Set {
+		for _, b := range f.Blocks {
+			for _, in := range b.Instrs {
+				if fa, ok := in.(*ssa.FieldAddr); ok {
+					k := fieldOwner(fa) + "." + fieldName(fa)
+					if c.mutableDuringWalk[k] {
+						bad2 = append(bad2, k+" ("+c.P.InstrPos(in)+")")
+					}
+				}
+			}
+		}
+	}
+	sort.Strings(bad2)
+	out = append(out, verdict(len(bad2) == 0, rule, "skip :: decision independent of traversal progress", c.P.Pos(skip.Pos()),
+		"skip and what it calls read only the options and the immutable graph structure", "the skip decision reads state that changes during the walk: "+strings.Join(bad2, ", ")+"; which vertices are visited then depends on direction and completion order"))
+	return out
+}
